@@ -1,13 +1,13 @@
 \* part S: two circuits, byte counters, connection limit; short clock
 SPECIFICATION SpecS
 CONSTANTS
-  T0 = 10  MaxTime = 12
+  T0 = 10  MaxTime = 11
   Peers = {1}  Seeders = {1, 2}  Circuits = {1, 2}
   MaxIpAge = 2  MinDht = 3  MaxDht = 1  Interval = 1  ConnLimit = 2  MaxBytes = 1  MaxResult = 1
   SeedingChoices = {FALSE}
   DupAdd = FALSE  ExpireUsed = FALSE  NoGate = FALSE  ForgetHistory = FALSE
   Nodes = {1}  NSwarmA = 1  PSeeders = {1}  PexAge = 3  PexCap = 2  SendCap = 10
-  Unload = FALSE  ExpireNewest = FALSE  CrossSwarm = FALSE  MaxMsgs = 0
+  Unload = FALSE  ExpireNewest = FALSE  CrossSwarm = FALSE  MaxMsgs = 0  MaxAnn = 2
 INVARIANT TypeOK
 INVARIANT SwarmNoDup
 INVARIANT HistoryExact
